@@ -71,9 +71,10 @@ ReadOnlyRule(e) ==
             /\ (e.method = "Free" => e.errres = "true")
 
 \* a read-only instance handed to ANOTHER instance's method as an argument
-\* (Transfer destination, element, expression, comparand) does not change either
+\* (Transfer destination, element, expression, comparand), or nested inside a writable
+\* parent whose own methods recurse (Defrag, Reveal, ...), does not change either
 ReadOnlyArgRule(e) ==
-  (e.mode = "ronly-arg") =>
+  (e.mode \in {"ronly-arg", "ronly-nested"}) =>
     (e.panic = "" /\ Same(e) /\ e.postro = "true" /\ e.posterr = e.preerr /\ e.postlive = "true")
 
 \* after the flag was cleared, the instance is mutable again
@@ -134,7 +135,7 @@ FNext ==
      IF e.ev # "call" THEN UNCHANGED <<bad, unmodelled>>
      ELSE /\ bad' = IF Rules(e) = {} THEN bad
                     ELSE Append(bad, [line |-> l, rules |-> Rules(e), method |-> e.method, typ |-> e.typ])
-          /\ unmodelled' = IF e.method \in Known \/ e.mode \in {"ronly-arg", "pkg"} THEN unmodelled ELSE unmodelled \cup {e.typ \o "." \o e.method}
+          /\ unmodelled' = IF e.method \in Known \/ e.mode \in {"ronly-arg", "ronly-nested", "pkg"} THEN unmodelled ELSE unmodelled \cup {e.typ \o "." \o e.method}
 
 FSpec == FInit /\ [][FNext]_fvars
 
